@@ -19,6 +19,7 @@ A model program is a JSON list of construction statements (the actions of spec/M
   {"op": "Exogenous", "sector": .., "var": .., "value": "[20.]*20", "via": "sector"|"model"|"model_id"}
   {"op": "IC", "sector": .., "var": .., "value": 12.5, "via": "sector"|"model"}
   {"op": "Global", "var": "t", "desc": "..", "eqn": "1950. + k"}
+  {"op": "Query", "what": "zone"|"dump"|"loginfo"|"model_sectors", "country": "CA"}   read-only questions
   {"op": "MaxTime", "value": 5}
   {"op": "Main"}                                                (implicit at the end if absent)
 
@@ -158,6 +159,17 @@ def execute(program, solve=True, oracle=True, horizon=None, stop_before_main=Fal
                 model.AddGlobalEquation(st['var'], st.get('desc', ''), subst(st['eqn'], idx))
             elif op == 'MaxTime':
                 model.MaxTime = st['value']
+            elif op == 'Query':
+                c = b.countries[st['country']]
+                if st['what'] == 'zone':
+                    c.CurrencyZone.GetSectors()
+                elif st['what'] == 'dump':
+                    model.DumpEquations()
+                elif st['what'] == 'loginfo':
+                    model.LogInfo()
+                else:
+                    model.GetSectors()
+                    c.GetSectors()
             elif op == 'GetName':
                 name = sec(st['sector']).GetVariableName(st['var'])
                 b.names_handed_out.append((idx, st['sector'], st['var'], name))
